@@ -16,7 +16,6 @@ import (
 	"crypto/tls"
 	"fmt"
 	"math/rand"
-	"net"
 	"strings"
 	"sync"
 	"time"
@@ -35,6 +34,7 @@ func c14waitersOnce(m map[string]string) string {
 	n := len(strings.Split(m["fresh"], ","))
 	dl := atoi(m["dl"])
 	res := make([]c14wres, n)
+	var rmu sync.Mutex
 	var wg sync.WaitGroup
 	var up upstream.Upstream
 	var killedAt func() time.Time
@@ -49,15 +49,15 @@ func c14waitersOnce(m map[string]string) string {
 			ctx, cancel := context.WithTimeout(context.Background(), time.Duration(dl)*time.Millisecond)
 			defer cancel()
 			ok := c14do(up, ctx, c14query("hold", i))
+			rmu.Lock()
 			res[i] = c14wres{ok, time.Now()}
+			rmu.Unlock()
 		}()
 	}
 
 	if tr == "udp" {
-		pc, err := net.ListenUDP("udp", &net.UDPAddr{IP: net.IPv4(127, 0, 0, 1)})
-		if err != nil {
-			return "setup-failed:listen"
-		}
+		pc := c14listenUDP()
+		var err error
 		var mu sync.Mutex
 		seen := map[int]bool{}
 		var kt time.Time
@@ -138,7 +138,7 @@ func c14waitersOnce(m map[string]string) string {
 	defer func() {
 		up.Close()
 		cleanup()
-		wg.Wait()
+		c14waitTimeout(&wg, 8*time.Second)
 	}()
 
 	start(0)
@@ -162,14 +162,20 @@ func c14waitersOnce(m map[string]string) string {
 			start(i)
 		}
 	}
-	wg.Wait()
+	c14waitTimeout(&wg, time.Duration(dl)*time.Millisecond+c14Slack+c14Hard)
 	kt := killedAt()
 	if kt.IsZero() {
 		return "setup-failed:no-kill"
 	}
 	var sb strings.Builder
 	slowest := time.Duration(0)
-	for _, r := range res {
+	rmu.Lock()
+	snap := append([]c14wres(nil), res...)
+	rmu.Unlock()
+	for _, r := range snap {
+		if r.done.IsZero() { // still blocked
+			r.done = kt.Add(time.Hour)
+		}
 		if r.ok {
 			sb.WriteByte('o')
 		} else {
@@ -221,7 +227,7 @@ func c14waitersGen(r *rand.Rand, thorough bool, emit func(c, cat string)) {
 	}
 	add("udp", "close", "refuse", 2+r.Intn(8))
 	if thorough {
-		for i := 0; i < 30; i++ {
+		for i := 0; i < 120; i++ {
 			tr := []string{"tcp+pipeline", "tls+pipeline"}[r.Intn(2)]
 			add(tr, kills[r.Intn(3)], []string{"ok", "refuse"}[r.Intn(2)], 1+r.Intn(60))
 		}
